@@ -1,8 +1,338 @@
-//! C22 — not built yet.
+//! C22 — `@csv` / `@dsv(d)` output reads back through `--input-dsv d` (DESIGN §4 C22).
+//! Black-box round trip through two CLI invocations:
+//!   succinctly jq -r '@dsv("d")' in.json   >  rows.txt
+//!   succinctly jq -c --input-dsv d . rows.txt
+//! A batch holds many arrays (one JSON document each) that share one delimiter; on any
+//! mismatch the arrays are re-run one by one so the reported case is a single array.
+use crate::cli;
 use crate::engine::*;
+use crate::gen::json::{self as gj, J};
+use crate::oracle::jsonval as jv;
+use serde_json::{json, Value};
 
-pub const RULE: &str = "not built";
+pub const RULE: &str = "arrays of 1..20 strings (empty, the delimiter, quotes incl. leading/trailing/doubled, CR, LF, CRLF, tab, leading/trailing spaces, non-ASCII incl. astral, long fields that straddle 64-byte chunks) x delimiter in printable ASCII minus '\"' (all 94; ',' through @csv or @dsv(\",\")); 1..32 arrays per batch sharing a delimiter, JSON rendered with random escape forms; oracle: rows read back by --input-dsv equal the arrays (strings identical, same count), both exits 0. Non-trivial: some element contains the delimiter, a quote or a line break; distinct by hash(array, delimiter).";
+
+struct Case {
+    delim: char,
+    /// use `@csv` (only when delim == ',')
+    csv: bool,
+    /// `--input-dsv=d` instead of `--input-dsv d`
+    eq_form: bool,
+}
+
+fn program(c: &Case) -> String {
+    if c.csv {
+        return "@csv".to_string();
+    }
+    let lit = match c.delim {
+        '\\' => "\\\\".to_string(),
+        d => d.to_string(),
+    };
+    format!("@dsv(\"{}\")", lit)
+}
+
+fn read_args(c: &Case) -> Vec<String> {
+    let mut a = vec!["jq".to_string(), "-c".to_string()];
+    if c.eq_form {
+        a.push(format!("--input-dsv={}", c.delim));
+    } else {
+        a.push("--input-dsv".into());
+        a.push(c.delim.to_string());
+    }
+    a.push(".".into());
+    a
+}
+
+fn gen_field(u: &mut Src, d: char) -> String {
+    let atom = |u: &mut Src| -> String {
+        match u.below(16) {
+            0 => d.to_string(),
+            1 => "\"".to_string(),
+            2 => "\n".to_string(),
+            3 => "\r".to_string(),
+            4 => "\r\n".to_string(),
+            5 => " ".to_string(),
+            6 => u.pick(&["é", "ß", "あ", "😀", "\u{a0}", "\u{2028}", "\u{feff}", "\u{10ffff}", "ñ"]).to_string(),
+            7 => "\t".to_string(),
+            8 => u.pick(&[",", ";", "|", "\t", ":", "'", "\\", "#"]).to_string(),
+            9 => "\"\"".to_string(),
+            _ => ((b'a' + u.below(26) as u8) as char).to_string(),
+        }
+    };
+    match u.below(12) {
+        0 => String::new(),
+        1 => d.to_string(),
+        2 => "\"".to_string(),
+        3 => {
+            // long field built by repetition (crosses chunk boundaries of the DSV indexer)
+            let piece: String = (0..u.range(1, 6)).map(|_| atom(u)).collect();
+            let n = u.range(8, 70);
+            piece.repeat(n)
+        }
+        4 => format!("{}{}", atom(u), d),
+        5 => format!("\"{}\"", (0..u.range(0, 4)).map(|_| atom(u)).collect::<String>()),
+        _ => (0..u.range(1, 8)).map(|_| atom(u)).collect(),
+    }
+}
+
+fn gen_array(u: &mut Src, d: char) -> Vec<String> {
+    let n = match u.below(6) {
+        0 => 1,
+        1 => u.range(1, 3),
+        2 => 20,
+        _ => u.range(1, 20),
+    };
+    (0..n).map(|_| gen_field(u, d)).collect()
+}
+
+fn nontrivial(a: &[String], d: char) -> bool {
+    a.iter().any(|s| s.contains(d) || s.contains('"') || s.contains('\n') || s.contains('\r'))
+}
+
+fn lossy(b: &[u8]) -> String {
+    let s = String::from_utf8_lossy(b);
+    if s.len() > 4000 {
+        let mut cut = 4000;
+        while !s.is_char_boundary(cut) {
+            cut -= 1;
+        }
+        format!("{}…(+{} bytes)", &s[..cut], s.len() - cut)
+    } else {
+        s.to_string()
+    }
+}
+
+enum Outcome {
+    Pass,
+    Inconclusive,
+}
+
+/// One round trip over `arrays` (each rendered JSON text is one input document).
+fn round_trip(c: &Case, arrays: &[&Vec<String>], texts: &[&Vec<u8>]) -> Result<Outcome, Fail> {
+    let single = arrays.len() == 1;
+    let mut input = vec![];
+    for t in texts {
+        input.extend_from_slice(t);
+        input.push(b'\n');
+    }
+    let prog = program(c);
+    let path = cli::write_tmp("c22-in", &input);
+    let p = path.to_string_lossy().to_string();
+    let fmt_args = ["jq", "-r", prog.as_str(), p.as_str()];
+    let f = cli::run(&fmt_args, None);
+    let _ = std::fs::remove_file(&path);
+    if f.timed_out {
+        return Ok(Outcome::Inconclusive);
+    }
+    let dname = format!("{:?}", c.delim);
+    let base = |what: &str, extra: Value| -> Value {
+        let mut v = json!({
+            "what": what,
+            "delimiter": c.delim.to_string(),
+            "format_command": ["succinctly", "jq", "-r", prog, "<in.json>"],
+            "read_command": read_args(c),
+            "arrays": arrays.len(),
+            "extra": extra,
+        });
+        if single {
+            v["array"] = json!(arrays[0]);
+            v["input_json"] = json!(lossy(texts[0]));
+        }
+        v
+    };
+    if f.crashed() {
+        return Err(Fail::new("C22/format/crash", base("formatter crashed", json!({"exit": f.code, "signal": f.signal, "stderr": lossy(&f.stderr)}))));
+    }
+    if f.code != Some(0) {
+        return Err(Fail::new("C22/format/exit-status", base("formatter failed on an array of strings", json!({"exit": f.code, "stderr": lossy(&f.stderr)}))));
+    }
+    let rpath = cli::write_tmp("c22-rows", &f.stdout);
+    let mut ra = read_args(c);
+    ra.push(rpath.to_string_lossy().to_string());
+    let ra_ref: Vec<&str> = ra.iter().map(|s| s.as_str()).collect();
+    let r = cli::run(&ra_ref, None);
+    let _ = std::fs::remove_file(&rpath);
+    if r.timed_out {
+        return Ok(Outcome::Inconclusive);
+    }
+    let with_text = |mut v: Value| -> Value {
+        v["dsv_text"] = json!(lossy(&f.stdout));
+        v
+    };
+    if r.crashed() {
+        return Err(Fail::new("C22/read/crash", with_text(base("reader crashed", json!({"exit": r.code, "signal": r.signal, "stderr": lossy(&r.stderr)})))));
+    }
+    if r.code != Some(0) {
+        return Err(Fail::new("C22/read/exit-status", with_text(base("reader failed", json!({"exit": r.code, "stderr": lossy(&r.stderr)})))));
+    }
+    let rows = match jv::parse_stream(&r.stdout) {
+        Ok(v) => v,
+        Err(e) => return Err(Fail::new("C22/read/output-not-json", with_text(base(&e.msg, json!({"stdout": lossy(&r.stdout)}))))),
+    };
+    if rows.len() != arrays.len() {
+        let shape = if rows.len() > arrays.len() { "more-rows" } else { "fewer-rows" };
+        return Err(Fail::new(
+            format!("C22/round-trip/{}", shape),
+            with_text(base("number of rows read differs from the number of arrays written", json!({"rows_read": rows.len(), "delim": dname, "stdout": lossy(&r.stdout)}))),
+        ));
+    }
+    for (i, (a, row)) in arrays.iter().zip(rows.iter()).enumerate() {
+        let exp = J::Arr(a.iter().map(|s| J::Str(s.clone())).collect());
+        if !gj::j_eq(&exp, row) {
+            let shape = match row {
+                J::Arr(x) if x.len() != a.len() => {
+                    if x.len() > a.len() {
+                        "more-fields"
+                    } else {
+                        "fewer-fields"
+                    }
+                }
+                J::Arr(_) => "field-text",
+                _ => "not-an-array",
+            };
+            let mut v = with_text(base("row read back differs from the array written", json!({"index": i, "read_back": gj::to_compact(row)})));
+            v["array"] = json!(a);
+            return Err(Fail::new(format!("C22/round-trip/{}", shape), v));
+        }
+    }
+    Ok(Outcome::Pass)
+}
+
+fn run_batch(c: &Case, arrays: &[Vec<String>], texts: &[Vec<u8>], st: &mut Stats) -> Result<(), Fail> {
+    let ar: Vec<&Vec<String>> = arrays.iter().collect();
+    let tr: Vec<&Vec<u8>> = texts.iter().collect();
+    match round_trip(c, &ar, &tr) {
+        Ok(Outcome::Pass) => Ok(()),
+        Ok(Outcome::Inconclusive) => {
+            st.discard();
+            Ok(())
+        }
+        Err(bf) => {
+            if arrays.len() == 1 {
+                return Err(bf);
+            }
+            for i in 0..arrays.len() {
+                match round_trip(c, &[&arrays[i]], &[&texts[i]]) {
+                    Err(f) => return Err(f),
+                    Ok(Outcome::Inconclusive) => {
+                        st.discard();
+                        return Ok(());
+                    }
+                    Ok(Outcome::Pass) => {}
+                }
+            }
+            // pairs: a row may only fail next to its neighbour
+            for i in 0..arrays.len() - 1 {
+                if let Err(mut f) = round_trip(c, &[&arrays[i], &arrays[i + 1]], &[&texts[i], &texts[i + 1]]) {
+                    f.sig = f.sig.replacen("C22/", "C22/two-rows/", 1);
+                    if let Some(m) = f.detail.as_object_mut() {
+                        m.insert("two_arrays".into(), json!([arrays[i], arrays[i + 1]]));
+                    }
+                    return Err(f);
+                }
+            }
+            let mut f = bf;
+            f.sig = f.sig.replacen("C22/", "C22/stream-only/", 1);
+            if let Some(m) = f.detail.as_object_mut() {
+                m.insert("all_arrays".into(), json!(arrays));
+            }
+            Err(f)
+        }
+    }
+}
+
+fn replay_input(v: &Value) -> Option<Fail> {
+    let inp = &v["input"];
+    let d = inp["delimiter"].as_str().and_then(|s| s.chars().next()).unwrap_or(',');
+    let c = Case { delim: d, csv: inp["csv"] == true, eq_form: true };
+    let arr: Vec<String> = inp["array"].as_array().map(|a| a.iter().filter_map(|x| x.as_str().map(|s| s.to_string())).collect()).unwrap_or_default();
+    let text = gj::to_compact(&J::Arr(arr.iter().map(|s| J::Str(s.clone())).collect())).into_bytes();
+    match round_trip(&c, &[&arr], &[&text]) {
+        Ok(_) => None,
+        Err(f) => Some(f),
+    }
+}
 
 pub fn run(cx: &mut Ctx) {
-    cx.infra("check not built");
+    if !cli::cli_available() {
+        cx.infra(format!("CLI binary not found at {}", cli::cli_path()));
+        return;
+    }
+    cx.assume("admissible delimiter = what validate_dsv_delimiter accepts among printable ASCII: everything except '\"' (CR/LF/non-ASCII are rejected by the CLI and not printable ASCII)");
+    cx.assume("the -r output of one array is one record ending in LF, so rows whose last field is empty are inside the statement");
+    for (name, v) in cx.replays.clone() {
+        if v["kind"] == "input" {
+            let r = replay_input(&v);
+            cx.replay_outcome(&name, r);
+        }
+    }
+    cx.check(
+        "dsv-round-trip",
+        RULE,
+        Budget { quick: 2_500, thorough: 60_000, max_len: 6_000 },
+        |u, st| {
+            let delim = match u.below(4) {
+                0 => ',',
+                1 => *u.pick(&[';', '|', ' ', ' ', ':', '\\', '\\', '\'', '-', '=', '#', 'a', '0', '~', '!']),
+                _ => {
+                    let c = u.range(0x20, 0x7e) as u8 as char;
+                    if c == '"' {
+                        ','
+                    } else {
+                        c
+                    }
+                }
+            };
+            let c = Case { delim, csv: delim == ',' && u.bool(), eq_form: u.bool() };
+            let k = match u.below(5) {
+                0 => 1,
+                1 => u.range(2, 6),
+                _ => u.range(6, 32),
+            };
+            let arrays: Vec<Vec<String>> = (0..k).map(|_| gen_array(u, delim)).collect();
+            let texts: Vec<Vec<u8>> = arrays
+                .iter()
+                .map(|a| {
+                    let j = J::Arr(a.iter().map(|s| J::Str(s.clone())).collect());
+                    let ro = gj::RenderOpts { ws: *u.pick(&[gj::Ws::None, gj::Ws::Spaced, gj::Ws::Random]), esc: *u.pick(&[gj::Esc::Minimal, gj::Esc::Random, gj::Esc::AsciiOnly]), outer_ws: false };
+                    gj::render(&j, u, ro).text
+                })
+                .collect();
+            st.class(if c.csv { "@csv" } else { "@dsv" });
+            st.class(match delim {
+                ',' => "delim-comma",
+                ' ' => "delim-space",
+                '\\' => "delim-backslash",
+                c if c.is_ascii_alphanumeric() => "delim-alphanumeric",
+                _ => "delim-other-punct",
+            });
+            for a in &arrays {
+                st.evals(1);
+                let nt = nontrivial(a, delim);
+                if nt {
+                    st.class("nontrivial");
+                    let mut h = hash_str(&a.join("\u{1}"));
+                    h = mix64(h ^ (delim as u64) << 32 ^ a.len() as u64);
+                    st.nontrivial(h);
+                }
+                st.class_if(a.last().map_or(false, |s| s.is_empty()), "last-field-empty");
+                st.class_if(a.len() == 1 && a[0].is_empty(), "single-empty-string");
+                st.class_if(a.iter().any(|s| s.contains('\n') || s.contains('\r')), "line-break-in-field");
+                st.class_if(a.iter().any(|s| s.contains("\r\n")), "crlf-in-field");
+                st.class_if(a.iter().any(|s| s.contains(delim)), "delimiter-in-field");
+                st.class_if(a.iter().any(|s| s.contains('"')), "quote-in-field");
+                st.class_if(a.iter().any(|s| !s.is_ascii()), "non-ascii");
+                st.class_if(a.iter().any(|s| s.len() > 64), "field>64-bytes");
+                st.class_if(a.len() == 20, "20-fields");
+                st.size(a.iter().map(|s| s.len()).sum());
+            }
+            st.sample(if c.csv { "@csv" } else { "@dsv" }, || json!({"delimiter": delim.to_string(), "arrays": k, "first": arrays[0]}));
+            st.describe(|| json!({"delimiter": delim.to_string(), "csv": c.csv, "program": program(&c), "read_args": read_args(&c), "arrays": arrays}));
+            run_batch(&c, &arrays, &texts, st)
+        },
+    );
+    for c in ["@csv", "@dsv", "last-field-empty", "single-empty-string", "crlf-in-field", "delimiter-in-field", "quote-in-field", "non-ascii", "field>64-bytes", "delim-space", "delim-backslash", "delim-alphanumeric", "nontrivial"] {
+        cx.require_class("dsv-round-trip", c, 10);
+    }
+    cli::cleanup();
 }
